@@ -69,6 +69,61 @@ def write_evidence(prop, tier, seed, cov, assumptions, wall, violations):
     os.replace(tmp, os.path.join(d, f'{prop}.json'))
 
 
+def _descendants(pid):
+    kids = {}
+    for d in os.listdir('/proc'):
+        if d.isdigit():
+            try:
+                with open(f'/proc/{d}/stat') as fh:
+                    rest = fh.read().rsplit(')', 1)[1].split()
+                kids.setdefault(int(rest[1]), []).append(int(d))
+            except (OSError, IndexError, ValueError):
+                pass
+    out, todo = [], [pid]
+    while todo:
+        for k in kids.get(todo.pop(), []):
+            out.append(k)
+            todo.append(k)
+    return out
+
+
+def start_watchdog(prop, tier, seed, t0):
+    """The exploration of a tier has a wall-clock budget far above what it needs on the unchanged tree (quick: seconds to a
+    minute; budget 30 min.  thorough: up to an hour; budget 8 h).  A run that exceeds it is not 'slow': the code under test no
+    longer lets the harness make progress (a wait that never ends, state accumulating across runs).  The property is then no
+    longer shown to hold: reported as a violation without a failing input, naming the budget in the replay file."""
+    import signal
+    import threading
+    budget = float(os.environ.get('VERIF_BUDGET_S', '1800' if tier == 'quick' else '28800'))
+
+    def expired():
+        path = os.path.join(common.ROOT, 'replays', f'{prop}-{seed}-{int(time.time())}.json')
+        os.makedirs(os.path.dirname(path), exist_ok=True)
+        with open(path, 'w') as fh:
+            json.dump(dict(property=prop, kind='budget-exceeded', tier=tier, seed=seed, budget_s=budget,
+                           broken=[{'kind': 'correspondence', 'what': f'the correspondence / monitor run of tier {tier} did not complete '
+                                    f'within {budget:.0f} s (it takes well under a tenth of that on the unchanged tree): the harness can no '
+                                    'longer drive the code to completion'}]), fh, indent=1)
+        rel = os.path.relpath(path, common.ROOT)
+        sys.stdout.write(f'{prop} {tier}: exploration did not complete within {budget:.0f} s\n'
+                         f'VIOLATION property={prop} replay={rel} no-failing-input-found\n')
+        sys.stdout.flush()
+        try:
+            write_evidence(prop, tier, seed, dict(obligations=0, discharged=0, note='budget exceeded'), [], time.time() - t0, 1)
+        except Exception:  # noqa
+            pass
+        for k in _descendants(os.getpid()):
+            try:
+                os.kill(k, signal.SIGKILL)
+            except OSError:
+                pass
+        os._exit(1)
+    t = threading.Timer(budget, expired)
+    t.daemon = True
+    t.start()
+    return t
+
+
 def main(argv):
     if len(argv) >= 2 and argv[0] == '--replay':
         return replay(argv[1])
@@ -108,12 +163,15 @@ def main(argv):
 
     # 4. corpus + correspondence + monitors
     ctx = Ctx(prop, tier, seed, common.Model(model_ok))
+    watchdog = start_watchdog(prop, tier, seed, t0)
     try:
         out = mod.run(ctx)
     except Exception:
+        watchdog.cancel()
         print('INFRA: harness error\n' + traceback.format_exc())
         return 2
 
+    watchdog.cancel()
     failures = out.get('failures', [])
     divergences = out.get('divergences', [])
     if not model_ok:
